@@ -15,7 +15,7 @@
      NEW  integer arrays: the default fill NaN raises                  C16_int_array_nan_fill_refuted *)
 From Coq Require Import ZArith List Bool String Ascii.
 Import ListNotations.
-Require Import PyBase Funcs FuncsFacts FuncsExamples FuncsFacts2 FuncsExamples2 FuncsConv FuncsConvFacts EvalIdx EvalIdxFacts EvalIdxExamples EvalIdxWhole EvalIdxWholeExamples EvalIdxMixed EvalIdxLocate EvalIdxLocateExamples EvalIdxProgram EvalIdxProgramExamples EvalIdxProgram2 EvalIdxProgram3 EvalIdxLocateSpans EvalIdxLocateRange EvalIdxInt.
+Require Import PyBase Funcs FuncsFacts FuncsExamples FuncsFacts2 FuncsExamples2 FuncsConv FuncsConvFacts EvalIdx EvalIdxFacts EvalIdxExamples EvalIdxWhole EvalIdxWholeExamples EvalIdxMixed EvalIdxLocate EvalIdxLocateExamples EvalIdxProgram EvalIdxProgramExamples EvalIdxProgram2 EvalIdxProgram3 EvalIdxLocateSpans EvalIdxLocateRange EvalIdxInt EvalIdxGuards EvalIdxNested.
 Require Fsic.Locate.Locate Fsic.Locate.LocateFacts.
 Open Scope string_scope.
 Open Scope Z_scope.
@@ -288,6 +288,9 @@ Section C16_rewrite.
   (* an expression without any backtick is a fixed point of the rewriter (so eval_text e = rewrite e for every e) *)
   Theorem C16_rewrite_without_backtick_is_identity (s : string) : has_char ch_tick s = false -> rewrite has locate s = Ret s.
   Proof. exact (rewrite_no_tick_identity has locate s). Qed.
+
+  Theorem C16_eval_text_is_rewrite (s : string) : eval_text has locate s = rewrite has locate s.
+  Proof. exact (eval_text_is_rewrite has locate s). Qed.
 
   (* ---- the substitution, bracket by bracket (these three equations determine it on every text whose brackets
           are not nested and not empty) ---- *)
@@ -720,6 +723,70 @@ Theorem C16_undefined_name_leak_refuted :
     snd (ns_case tbl outer vars None None name) = EVal ("G:" ++ name).
 Proof. exact undefined_name_leak_refuted. Qed.
 
+(* ====================================================================== the guards of the kept findings, decidable *)
+(* label_carried a = a has no backtick, colon, closing bracket or newline (computable on any label): such a label, when it
+   resolves, is replaced by its location anywhere in an expression *)
+Theorem C16_carried_label_is_resolved (has : label -> bool) (locate : label -> outcome loc) (pre ws1 a ws2 post : string) (l : loc) :
+  label_carried a = true ->
+  has_char ch_open pre = false -> str_all is_re_space ws1 = true -> str_all is_re_space ws2 = true ->
+  ((has (LStr a) = true /\ locate (LStr a) = Ret l) \/
+   (has (LStr a) = false /\ exists z, parse_int_raw a = Some z /\ has (LInt z) = true /\ locate (LInt z) = Ret l)) ->
+  rewrite has locate (pre ++ "[" ++ ws1 ++ ("`" ++ a ++ "`") ++ ws2 ++ "]" ++ post)
+  = omap (fun u => pre ++ ("[" ++ str_loc l ++ "]") ++ u) (rewrite has locate post).
+Proof. exact (carried_label_is_resolved has locate pre ws1 a ws2 post l). Qed.
+
+(* name_defined: the name is a helper, a variable, a caller local or — the leak — a module global / Python builtin.
+   A name (no backtick) bound nowhere is reported as AttributeError naming it *)
+Theorem C16_undefined_name_is_reported (tbl outer vars : list string) (locals : option (list string)) (name : string) :
+  has_char ch_tick name = false ->
+  name_defined tbl outer vars locals name = false ->
+  snd (ns_case tbl outer vars locals None name) = EAttributeError name.
+Proof. exact (undefined_name_is_reported tbl outer vars locals name). Qed.
+
+(* fill_castable f: NumPy can cast the fill value to int64 (ints, finite floats — truncated); then the call is the helper of
+   Funcs.v on the cast value, so all of its specifications apply *)
+Theorem C16_castable_fill_behaves (fn : fname) (h : heap Z) (lx : nat) (p : Z) (f : pyfill) :
+  fill_castable f = true ->
+  exists v, conv_int64 f = Ret v /\
+            call_Hc Z pyfill Z.sub (fun z => z) conv_int64 fn h lx p f = call_H Z Z.sub (fun z => z) fn h lx p v.
+Proof. exact (castable_fill_behaves fn h lx p f). Qed.
+
+(* ====================================================================== labels that do not stand alone in their bracket *)
+Section C16_not_alone.
+  Variable has : label -> bool.
+  Variable locate : label -> outcome loc.
+
+  (* nested subscript X[ c pre [`a`] ... : the outer bracket ends at the first closing bracket; the callback receives the single
+     item  c pre[`a`  and looks up the TEXT  c pre[`a  as a period label (it can never be an integer) *)
+  Theorem C16_nested_item_lookup (c : ascii) (pre a : string) :
+    is_py_space c = false -> has_char ch_tick (String c pre) = false -> has_char ch_colon (String c pre) = false ->
+    has_char ch_tick a = false -> has_char ch_colon a = false -> a <> "" ->
+    resolve_group has locate (String c pre ++ "[" ++ ("`" ++ a ++ "`")) =
+      if has (LStr (String c pre ++ "[`" ++ a))
+      then omap (fun l => "[" ++ str_loc l ++ "]") (locate (LStr (String c pre ++ "[`" ++ a)))
+      else Raise KeyError.
+  Proof. exact (nested_item_lookup has locate c pre a). Qed.
+
+  (* hence KeyError, wherever the nested label stands and whether or not the label itself is in the span *)
+  Theorem C16_nested_label_KeyError (pre0 : string) (c : ascii) (pre a post : string) :
+    has_char ch_open pre0 = false ->
+    is_re_space c = false -> has_char ch_tick (String c pre) = false -> has_char ch_colon (String c pre) = false ->
+    inner_ok (String c pre) = true ->
+    lab_ok a -> a <> "" ->
+    has (LStr (String c pre ++ "[`" ++ a)) = false ->
+    rewrite has locate (pre0 ++ "[" ++ (String c pre ++ "[" ++ ("`" ++ a ++ "`")) ++ "]" ++ post) = Raise KeyError.
+  Proof. exact (nested_label_KeyError has locate pre0 c pre a post). Qed.
+
+  (* a label slice broken across lines: `.` does not match a newline, no match starts at that bracket; the text comes back
+     as it is, backticks included *)
+  Theorem C16_label_slice_across_lines_unchanged (pre a b post : string) :
+    has_char ch_open pre = false -> has_char ch_open post = false ->
+    lab_ok a -> lab_ok b -> has_char ch_open a = false -> has_char ch_open b = false ->
+    let e := pre ++ "[" ++ ("`" ++ a ++ "`:") ++ String ch_nl ("`" ++ b ++ "`]" ++ post) in
+    rewrite has locate e = Ret e /\ has_char ch_tick e = true.
+  Proof. exact (label_slice_across_lines_unchanged has locate pre a b post). Qed.
+End C16_not_alone.
+
 (* ====================================================================== eval(): namespace, purity, undefined names *)
 Section C16_eval.
   Variable V : Type.                                    (* Python objects *)
@@ -807,6 +874,19 @@ Section C16_eval.
                           (ns_update V (ns_update V (base_dict V dh tbl bi) vars) (locals_ns V locals))) /\
     snd (fst (eval_M V has locate pyeval dh tbl vars (expr_text segs tail) locals bi)) = vars.
   Proof. exact (eval_whole_expression V has locate pyeval dh tbl vars locals bi segs ts tail). Qed.
+
+  (* EVERY expression eval() evaluates: CPython receives the concatenation of the per-piece outputs of the expression's pieces
+     (matches of the bracket regex and the characters between them), in which every piece without a backtick — every
+     positional bracket, wherever it stands — is the piece itself *)
+  Theorem C16_eval_positional_brackets_untouched (dh : dheap V) (tbl : nat) (vars : ns V) (locals : option (ns V)) (bi : option nat)
+          (expr text : string) :
+    eval_text has locate expr = Ret text ->
+    (forall l, bi = Some l -> (l < List.length dh)%nat) ->
+    snd (eval_M V has locate pyeval dh tbl vars expr locals bi)
+      = convert V (pyeval text (ns_update V (ns_update V (base_dict V dh tbl bi) vars) (locals_ns V locals))) /\
+    exists ts, Forall2 (fun p u => piece_out has locate p = Ret u) (scan expr) ts /\ text = sconcat ts /\
+               Forall2 (fun p u => has_char ch_tick (piece_src p) = false -> u = piece_src p) (scan expr) ts.
+  Proof. exact (eval_positional_brackets_untouched V has locate pyeval dh tbl vars locals bi expr text). Qed.
 
   (* the leftmost failing bracket is what eval() raises, before any dict is created or touched *)
   Theorem C16_eval_whole_expression_error (dh : dheap V) (tbl : nat) (vars : ns V) (locals : option (ns V)) (bi : option nat)
@@ -920,3 +1000,11 @@ Print Assumptions C16_scan_partitions.
 Print Assumptions C16_label_in_nested_bracket_refuted.
 Print Assumptions C16_label_slice_across_lines_refuted.
 Print Assumptions C16_plain_bracket_verbatim.
+Print Assumptions C16_carried_label_is_resolved.
+Print Assumptions C16_undefined_name_is_reported.
+Print Assumptions C16_castable_fill_behaves.
+Print Assumptions C16_nested_item_lookup.
+Print Assumptions C16_nested_label_KeyError.
+Print Assumptions C16_label_slice_across_lines_unchanged.
+Print Assumptions C16_eval_positional_brackets_untouched.
+Print Assumptions C16_eval_text_is_rewrite.
